@@ -81,9 +81,17 @@ def check_theorems(pid, files):
         if not os.path.exists(path):
             return
         txt = open(path).read()
-        for m in re.finditer(r"From Ark Require (?:Import|Export)\s+((?:[A-Za-z0-9_.]+\s*)+?)\.\s*(?:\n|$)", txt):
-            for mod in m.group(1).split():
-                closure(mod.strip().replace(".", "/") + ".v")
+        for line in txt.splitlines():
+            line = line.strip()
+            m = re.match(r"From Ark Require (?:Import |Export )?(.*)$", line)
+            if not m:
+                continue
+            mods = m.group(1).rstrip()
+            if mods.endswith("."):
+                mods = mods[:-1]
+            for mod in mods.split():
+                if re.fullmatch(r"[A-Za-z0-9_.]+", mod):
+                    closure(mod.strip(".").replace(".", "/") + ".v")
     for f in files:
         closure(f)
     forbidden = re.compile(r"\b(Admitted|admit|Axiom|Parameter|Conjecture|Unset Guard|bypass_check|Admit Obligations)\b")
